@@ -7,7 +7,7 @@ from fractions import Fraction
 from ..effects import expr_path
 from ..identity import Ident, has_base, show
 from ..loops import dotted
-from ..nf import NF, Scope, Poly
+from ..nf import NF, Scope, Poly, parse_expr
 from ..repo import Repo, loc, short, AnalysisError, bind_call, positional_params, param_names
 from ..resolve import Resolver
 from .c05 import grad_sites
@@ -297,9 +297,13 @@ def _double_q(ck, repo, nf):
         rets = [x for x in ast.walk(fn) if isinstance(x, ast.Return)]
         ck.need(len(rets) == 1, f"{cq}.{meth}: expected one return")
         v = rets[0].value
+        fn._module = repo.cls(cq)._module
+        cfgq = nf.cfg_of(fn)
+        retn = next(n_ for n_ in cfgq.nodes if n_.kind == "stmt" and n_.ast is rets[0])
+        canon_v = nf.poly(v, Scope(cfgq, fn._module, {}, cq), retn.id).canon()
         if meth == "__call__":
-            ok = isinstance(v, ast.Call) and dotted(v.func) in ("jnp.minimum", "jax.numpy.minimum") and len(v.args) == 2 and \
-                {ast.unparse(a) for a in v.args} == {"self.q1(*args, **kwargs)", "self.q2(*args, **kwargs)"}
+            want_v = nf.poly(parse_expr("jnp.minimum(self.q1(*args, **kwargs), self.q2(*args, **kwargs))"), Scope(None, fn._module, {}, cq), None).canon()
+            ok = canon_v == want_v
             ck.ob("R2-bootstrap-kind", f"{cq}.__call__", "clipped-min", ok, f"return {short(v)}", "" if ok else "the clipped double-Q value must be minimum(q1(x), q2(x))", loc(fn._module, fn))
         else:
             sc = Scope(nf.cfg_of(fn), fn._module, {}, f"{cq}.mean")
@@ -482,15 +486,12 @@ def _callers(ck, repo):
         lparams = positional_params(lfn)
         # target identities of this loop: second arguments of the target-update helpers
         tids, oids = [], []
-        for node in cfg.nodes:
-            if node.ast is None or node.kind != "stmt":
-                continue
-            for c in ast.walk(node.ast):
-                if isinstance(c, ast.Call):
-                    t = res.resolve(c.func, mi, cfg, node.id)
-                    if t and t.qual in HELPERS and len(c.args) >= 2:
-                        oids.append(idn.of(c.args[0], mi, cfg, node.id, tq))
-                        tids.append(idn.of(c.args[1], mi, cfg, node.id, tq))
+        from .c06 import _helper_calls
+        # (online, target) argument pairs of every target-update helper call of this loop: keyword calls and loops over literal
+        # pairs (also those produced by helper expansion) are resolved by the same routine C06 uses
+        for hn, hc, hkind, (oe, te), hkey in _helper_calls(repo, res, fn, cfg):
+            oids.append(idn.of(oe, mi, cfg, hn, tq))
+            tids.append(idn.of(te, mi, cfg, hn, tq))
         found = False
         for node in cfg.nodes:
             if node.ast is None or node.kind != "stmt":
